@@ -92,6 +92,21 @@ def run(ctx):
               "for vID, v: if vID not in chain(nEdgeArray): for cid in v.ownCells: cells[cid].vertices.remove(v)",
               "the removal of unused vertices from the cell cycles no longer matches 'vertex id not in any resampled interface'")
 
+    ctx.clause("junctions stay at their exact position: resampling never writes a coordinate of an existing vertex")
+    reach = sorted(repo.reachable([GM]))
+    moved = []
+    for qn in reach:
+        fq = repo.functions[qn]
+        ctx.touch(fq)
+        for st_ in repo.stores(fq):
+            if st_["attr"] in ("x", "y") and st_["kind"] == "rebind":
+                moved.append((fq, st_))
+    for fq, st_ in moved:
+        ctx.violation("WHO", f"{fq.qualname} / WHO / coordinate .{st_['attr']} written during resampling", ctx.where(fq, st_["node"]),
+                      f"`{fq.module.line(st_['node'].lineno)}` moves a vertex inside the resampling closure")
+    if not moved:
+        ctx.ok("WHO", f"{GM} / WHO / no coordinate store in the resampling closure", ctx.where(f), f"{len(reach)} functions reachable, 0 stores to .x/.y")
+
     ctx.clause("a two-point interface on the tissue border is contracted to its midpoint")
     tj = [e for e in s.events if e.kind == "call" and isinstance(e.fname, tuple) and e.fname[1] == "append"
           and isinstance(e.node.func.value, ast.Name) and e.node.func.value.id not in (arr_name,) and e.args and e.loops()
@@ -176,6 +191,7 @@ def _attr(summary, base, name):
 
 _V = "forsys/virtual_edges.py"
 PINNED = [
+    ("resampling snaps kept vertices to a grid", _V, "    # remove all edges\n    edges.clear()", "    for v in vertices.values():\n        v.x = round(v.x, 2)\n        v.y = round(v.y, 2)\n    # remove all edges\n    edges.clear()"),
     ("resampling threshold off by two", _V, "        if len(e) > ne:\n            if not e in alreadySeen", "        if len(e) - 2 > ne:\n            if not e in alreadySeen"),
     ("get_unused_id without the collision loop", _V, "    new_id = len(dictionary)\n    i = 0\n    while dictionary.get(new_id) != None:\n        new_id = len(dictionary) + i\n        i += 1\n    return new_id", "    return len(dictionary)"),
     ("F4 reintroduced: abs() around the midpoint", _V, "x_cm = (v0.x + v1.x) / 2", "x_cm = abs(v0.x + v1.x) / 2"),
